@@ -187,7 +187,8 @@ CLAIMED = {
         "steady, identity/storage in order, and at the update revision from the partition up; FIXED POINT — converged pods give an empty plan, and then every "
         "reconcile (all API states, oracles) issues no pod or claim write; TERMINATION (TerminationProofs.v) — a fair round (plan takes effect, terminating pods "
         "finish, created pods become Ready) of any well-formed snapshot of any size strictly decreases the measure mu while the plan is non-empty and keeps "
-        "well-formedness, hence after at most mu(pods) rounds the pods are converged and stay so, whatever current revision each round resolves; QUIET "
+        "well-formedness, hence after at most mu(pods) rounds the pods are converged and stay so, whatever current revision each round resolves, and the status the pod "
+        "phase computes there says replicas = readyReplicas = spec.replicas (ConvergedStatus.v); QUIET "
         "(QuietProofs.v) — in a world satisfying the decidable condition quietb (nothing to adopt or claim, update revision newest, empty plan, stored status = "
         "computed status, history within limit) a fault-free reconcile succeeds, leaves the API state unchanged and logs list/get calls only. "
         "PARTIAL: that the full reconcile model's round (revision phase, adoption, executor) yields the pods of the abstract round is evaluated inside coqc on "
